@@ -47,6 +47,7 @@ func runC05(c *Ctx, r *Report) {
 	c05PoolTypestate(c, r, "C05-d")
 	c05StagePurity(c, r, "C05-d")
 	c05MatcherPerWorker(c, r)
+	c05FreshInstance(c, r, "C05-e/fresh-instance")
 	// (f) a match is counted before it is published: the counters are advanced only inside the
 	// classifying function, which returns before the worker sends the match to the aggregation loop
 	borrow(c, r, c01Counters, "C01-a", "C05-f", nil, true)
@@ -699,4 +700,137 @@ func c05MatcherPerWorker(c *Ctx, r *Report) {
 	})
 	r.Check(!shared && n >= 1, rule, fi.Name, "instance stays in the worker", c.Pos(fi.Decl.Pos()), "confined: the worker does not store into the shared Extractor", "the worker writes to the shared Extractor (or no longer creates its own matcher instance): matcher state (index pool, context) would be shared between goroutines")
 	r.Floor(rule, 2, "CreateInstance in asyncWorker and the confinement check")
+}
+
+// c05FreshInstance (…/fresh-instance): CreateInstance hands every caller its
+// own matcher instance. Each implementation in rare/pkg/matchers/** must
+// return a freshly built value (composite literal or the result of a call),
+// or its receiver when the receiver type keeps no mutable state; returning a
+// stored instance (a field, a package variable) gives the same instance - and
+// its non-thread-safe index pool - to several workers.
+func c05FreshInstance(c *Ctx, r *Report, rule string) {
+	n := 0
+	for _, fi := range c.AllFuncDecls("rare/pkg/matchers") {
+		if fi.Decl.Recv == nil || fi.Decl.Name.Name != "CreateInstance" || isTestSupportPkg(fi.Pkg.PkgPath) {
+			continue
+		}
+		info := fi.Pkg.TypesInfo
+		n++
+		var recv types.Object
+		if len(fi.Decl.Recv.List) == 1 && len(fi.Decl.Recv.List[0].Names) == 1 {
+			recv = info.Defs[fi.Decl.Recv.List[0].Names[0]]
+		}
+		// is the receiver type stateless (no method writes one of its fields)?
+		recvStateless := func() bool {
+			if recv == nil {
+				return false
+			}
+			rt := recv.Type()
+			if p, ok := rt.(*types.Pointer); ok {
+				rt = p.Elem()
+			}
+			named, ok := rt.(*types.Named)
+			if !ok {
+				return false
+			}
+			stateless := true
+			for _, m := range c.AllFuncDecls(fi.Pkg.PkgPath) {
+				if m.Decl.Recv == nil || len(m.Decl.Recv.List) != 1 || len(m.Decl.Recv.List[0].Names) != 1 {
+					continue
+				}
+				mr := m.Pkg.TypesInfo.Defs[m.Decl.Recv.List[0].Names[0]]
+				if mr == nil {
+					continue
+				}
+				mt := mr.Type()
+				if p, ok := mt.(*types.Pointer); ok {
+					mt = p.Elem()
+				}
+				if mn, ok := mt.(*types.Named); !ok || mn.Origin().Obj() != named.Origin().Obj() {
+					continue
+				}
+				ast.Inspect(m.Decl.Body, func(x ast.Node) bool {
+					var lhs []ast.Expr
+					switch t := x.(type) {
+					case *ast.AssignStmt:
+						lhs = t.Lhs
+					case *ast.IncDecStmt:
+						lhs = []ast.Expr{t.X}
+					}
+					for _, l := range lhs {
+						if id := rootIdent(l); id != nil && m.Pkg.TypesInfo.Uses[id] == mr {
+							if _, isSel := ast.Unparen(l).(*ast.Ident); !isSel {
+								stateless = false
+							}
+						}
+					}
+					return true
+				})
+			}
+			return stateless
+		}
+		var classify func(e ast.Expr, depth int) string
+		classify = func(e ast.Expr, depth int) string {
+			e = ast.Unparen(e)
+			switch t := e.(type) {
+			case *ast.CompositeLit:
+				return ""
+			case *ast.UnaryExpr:
+				if t.Op == token.AND {
+					if _, ok := ast.Unparen(t.X).(*ast.CompositeLit); ok {
+						return ""
+					}
+				}
+			case *ast.CallExpr:
+				return ""
+			case *ast.Ident:
+				o := info.Uses[t]
+				if o == recv && recv != nil {
+					if recvStateless() {
+						return ""
+					}
+					return "the receiver, whose type keeps mutable state"
+				}
+				if v, ok := o.(*types.Var); ok && within(fi.Decl.Body, v.Pos()) && depth < 3 {
+					bad, seen := "", false
+					ast.Inspect(fi.Decl.Body, func(x ast.Node) bool {
+						as, ok := x.(*ast.AssignStmt)
+						if !ok {
+							return true
+						}
+						for i, l := range as.Lhs {
+							if identObj(info, l) == o {
+								seen = true
+								if len(as.Rhs) == len(as.Lhs) {
+									if why := classify(as.Rhs[i], depth+1); why != "" {
+										bad = why
+									}
+								}
+							}
+						}
+						return true
+					})
+					if seen {
+						return bad
+					}
+				}
+				return "the stored value " + t.Name
+			case *ast.SelectorExpr:
+				return "the stored value " + exprStr(t)
+			}
+			return "the expression " + exprStr(e)
+		}
+		bad := ""
+		inspectNoLit(fi.Decl.Body, func(x ast.Node) bool {
+			if rs, ok := x.(*ast.ReturnStmt); ok && len(rs.Results) == 1 {
+				if why := classify(rs.Results[0], 0); why != "" {
+					bad = why + " (" + c.Pos(rs.Pos()) + ")"
+				}
+			}
+			return true
+		})
+		r.Check(bad == "", rule, fi.Name, "returned instance", c.Pos(fi.Decl.Pos()), "fresh: every return builds a new instance (or returns a receiver that keeps no state)",
+			"CreateInstance returns "+bad+": two workers can receive the same matcher instance and share its non-thread-safe state (index pool), so results handed out for one line are overwritten by another worker")
+	}
+	r.Floor(rule, 4, "factoryWrapper, AlwaysMatch, compiledRegexp, Dissect")
 }
